@@ -66,6 +66,8 @@ fn arg_attrs(a: &Arg) -> String {
     let mut s = String::new();
     for at in &a.attrs {
         match at {
+            // written plainly or behind an always-true cfg_attr (forwarded verbatim either way)
+            ArgAttr::SerdeDefault if a.name.len() % 2 == 1 => s.push_str("#[cfg_attr(all(), serde(default))] "),
             ArgAttr::SerdeDefault => s.push_str("#[serde(default)] "),
             ArgAttr::Marker(n) => write!(s, "#[doc = \"vp-{n}\"] ").unwrap(),
         }
@@ -270,7 +272,13 @@ pub fn render_interface_item(p: &Program, i: &Interface) -> String {
         if above {
             writeln!(s, "    {}", sg.attr).unwrap();
         }
-        writeln!(s, "    fn {}({}) -> {};", m.name, sg.params, sg.ret).unwrap();
+        // a third of the handlers are declared with a provided (default) body; the contract
+        // overrides it, the message types must not care
+        if m.name.len() % 3 == 1 {
+            writeln!(s, "    fn {}({}) -> {} {{ unimplemented!() }}", m.name, sg.params, sg.ret).unwrap();
+        } else {
+            writeln!(s, "    fn {}({}) -> {};", m.name, sg.params, sg.ret).unwrap();
+        }
     }
     writeln!(s, "}}").unwrap();
     s
@@ -739,6 +747,31 @@ pub fn render_glue(p: &Program, o: &RenderOpts) -> String {
             )
             .unwrap();
         }
+    }
+    // a second instantiation of a generic contract (every concrete type argument replaced by
+    // another one): its response tables, asked for in the same process (C16)
+    if !p.contract.generics.is_empty() && !p.contract.lifetime {
+        let alt: Vec<String> = p
+            .contract
+            .generics
+            .iter()
+            .map(|t| match t {
+                Ty::Rec => "Choice",
+                Ty::Choice => "MyMsg",
+                _ => "Rec",
+            })
+            .map(|s| s.to_string())
+            .collect();
+        writeln!(s, "        type CtrAlt = Ctr<{}>;", alt.join(", ")).unwrap();
+        writeln!(s, "        b.extra(\"alt_schemas\", svrt::AltSchemas(|| {{").unwrap();
+        writeln!(s, "            let mut parts = vec![];").unwrap();
+        writeln!(s, "            parts.push(<<CtrAlt as ContractApi>::Query as QueryResponses>::response_schemas().map_err(|e| e.to_string())?);").unwrap();
+        for i in &p.interfaces {
+            writeln!(s, "            parts.push(<<CtrAlt as {}::sv::InterfaceMessagesApi>::Query as QueryResponses>::response_schemas().map_err(|e| e.to_string())?);", i.module).unwrap();
+        }
+        writeln!(s, "            let w = <<CtrAlt as ContractApi>::ContractQuery as QueryResponses>::response_schemas().map_err(|e| e.to_string())?;").unwrap();
+        writeln!(s, "            Ok((parts, w))").unwrap();
+        writeln!(s, "        }}));").unwrap();
     }
     // builders
     for h in p.handlers() {
